@@ -108,6 +108,10 @@ theorem text_New_ok : Oidc.Shapes.Text_New := by unfold Oidc.Shapes.Text_New; rf
 theorem text_Config_Validate_ok : Oidc.Shapes.Text_Config_Validate := by unfold Oidc.Shapes.Text_Config_Validate; rfl
 theorem text_isValidSecureURL_ok : Oidc.Shapes.Text_isValidSecureURL := by unfold Oidc.Shapes.Text_isValidSecureURL; rfl
 
+/-! further functions these theorems rest on (every forwarded request passes through them) -/
+theorem text_SessionData_GetIncomingPath_ok : Oidc.Shapes.Text_SessionData_GetIncomingPath := by unfold Oidc.Shapes.Text_SessionData_GetIncomingPath; rfl
+theorem text_SessionData_SetIncomingPath_ok : Oidc.Shapes.Text_SessionData_SetIncomingPath := by unfold Oidc.Shapes.Text_SessionData_SetIncomingPath; rfl
+
 /-! ## The same statements about the code itself: the functions below are `Oidc.Generated.Code`, which `tools/go2lean` translates
     from /repo's source, statement by statement, on every run (meaning of the Go constructs: `Oidc/GoLib.lean`) -/
 open Oidc.Generated Oidc.CodeRefine in
